@@ -99,7 +99,8 @@ let parse_tree (s : string) : tree =
   if !pos <> len then raise (Parse "trailing input");
   t
 
-let view flt p t = observe (flt = []) p t
+(* rp: the resolved path of the root directory (real_path of the node's path); the tokens use the path as spelled *)
+let view flt rp t = observe (flt = []) rp t
 
 let () =
   (* listing <patterns> <hex path> <tree>: the names a clean build records for the root directory *)
@@ -126,23 +127,23 @@ let () =
             let r = b2s (tree_toks filt p nw <> tree_toks filt p !st) ^ b2s (struct_toks filt p nw <> struct_toks filt p !st) in
             st := nw; r) rest)
       | _ -> "ERR args");
-  (* scenariop <hex path> <patterns>@<tree> <patterns>@<tree> ...: as scenario, the description's patterns given per build;
+  (* scenariop <hex path> <hex resolved root path> <patterns>@<tree> <patterns>@<tree> ...: as scenario, the description's patterns given per build;
      when they differ from the previous build's the stored listings are not reused (forget_listings) and the old tokens
      are those of the old patterns *)
   register "scenariop" (function
-      | p :: first :: rest ->
-        let p = bytes_of_hex p in
+      | p :: rp :: first :: rest ->
+        let p = bytes_of_hex p and rp = bytes_of_hex rp in
         let split x = (match String.index_opt x '@' with
             | Some i -> (list_of_field (String.sub x 0 i), String.sub x (i + 1) (String.length x - i - 1))
             | None -> failwith "step") in
         let (f0, t0) = split first in
         let flt = ref f0 in
-        let st = ref (clean_build glob f0 (view f0 p (parse_tree t0))) in
+        let st = ref (clean_build glob f0 (view f0 rp (parse_tree t0))) in
         String.concat " " (List.map (fun x ->
             let (f, t) = split x in
             let oldf = !flt in
             let base = if f = oldf then !st else forget_listings !st in
-            let nw = rebuild glob f base (view f p (parse_tree t)) in
+            let nw = rebuild glob f base (view f rp (parse_tree t)) in
             let r = b2s (tree_toks (nonempty f) p nw <> tree_toks (nonempty oldf) p !st)
                     ^ b2s (struct_toks (nonempty f) p nw <> struct_toks (nonempty oldf) p !st) in
             st := nw; flt := f; r) rest)
